@@ -234,9 +234,139 @@ def legacy_jobs(tier):
     return J
 
 
+RR_LIB = LIB + ["src/lib/record/ares_dns_record.c", "src/lib/record/ares_dns_mapping.c",
+                "src/lib/record/ares_dns_multistring.c", "src/lib/record/ares_dns_name.c", "src/lib/str/ares_buf.c",
+                "src/lib/dsa/ares_llist.c", "src/lib/record/ares_dns_write.c"]
+
+A = "A"
+NAME_B = [1, ord("b"), 0]
+PTR0 = [0xC0, 0]
+# (shape name, wire type, class (None = symbolic), section, exact RDATA tokens)
+RR_SHAPES = [
+    ("A", 1, 1, 1, [A] * 4),
+    ("NS", 2, 1, 2, NAME_B),
+    ("NS_ptr", 2, 1, 1, PTR0),
+    ("CNAME", 5, 1, 1, NAME_B),
+    ("SOA", 6, 1, 2, NAME_B + PTR0 + [A] * 20),
+    ("PTR", 12, 1, 1, [1, ord("c"), 0xC0, 0]),
+    ("HINFO", 13, 1, 1, [2, A, A, 1, A]),
+    ("MX", 15, 1, 1, [A, A] + NAME_B),
+    ("MX_ptr", 15, 1, 3, [A, A] + PTR0),
+    ("TXT1", 16, 1, 1, [3, A, A, A]),
+    ("TXT2", 16, 3, 1, [1, A, 2, A, A]),
+    ("TXT3", 16, 1, 3, [0, 1, A, 2, A, A]),
+    ("SIG", 24, 255, 3, [A] * 18 + NAME_B + [A] * 3),
+    ("AAAA", 28, 1, 1, [A] * 16),
+    ("SRV", 33, 1, 3, [A] * 6 + NAME_B),
+    # NAPTR: a printable-validated string with symbolic bytes makes the cursor symbolic for everything after it
+    # (CBMC merges the EBADSTR path), so only HINFO/CAA/URI keep symbolic string bytes; here they are concrete
+    ("NAPTR", 35, 1, 1, [A, A, A, A, 1, ord("u"), 2, ord("s"), ord("v"), 0] + NAME_B),
+    ("NAPTR_np", 35, 1, 1, [A, A, A, A, 1, ord("u"), 2, 7, ord("v"), 0] + NAME_B),
+    ("OPT0", 41, None, 3, []),
+    ("OPT1", 41, None, 3, [A, A, 0, 2, A, A]),
+    ("OPT2", 41, None, 3, [A, A, 0, 0, A, A, 0, 1, A]),
+    ("TLSA", 52, 1, 1, [A] * 7),
+    ("SVCB0", 64, 1, 1, [A, A, 0]),
+    ("SVCB1", 64, 1, 1, [A, A] + NAME_B + [A, A, 0, 2, A, A]),
+    ("HTTPS2", 65, 1, 1, [A, A] + NAME_B + [A, A, 0, 1, A, A, A, 0, 0]),
+    ("URI", 256, 1, 1, [A] * 4 + [A] * 3),
+    ("CAA", 257, 1, 1, [A, 2, A, A, A, A, A]),
+    ("ANY", 255, 1, 1, [A] * 2),
+    ("UNK99", 99, 1, 1, [A] * 3),
+    ("UNK99_badclass", 99, 7, 2, [A] * 3),
+    ("A_badclass", 1, 7, 1, [A] * 4),
+    ("A_classany", 1, 255, 1, [A] * 4),
+]
+
+
+RR_MUST_ACCEPT = set(n for n, t, c, s_, k in RR_SHAPES if n not in ("ANY", "A_badclass", "A_classany", "NAPTR_np"))
+# bytes that follow the well-formed RDATA when more bytes are present than the shape has (default: arbitrary);
+# TXT reads the first of them as a length byte when RDLENGTH says so: keep it concrete (sizes stay concrete)
+RR_TRAIL = {"TXT1": [[1, A], [0, A]], "TXT2": [[1, A], [0, A]], "TXT3": [[2, A], [0, A]]}
+
+
+def rr_jobs(tier):
+    J = []
+    for nm, rtype, rclass, sect, toks in RR_SHAPES:
+        E = len(toks)
+        variants = [(E, E), (E, E + 2), (E + 1, E), (E + 1, E + 2), (0, E), (0, 0)]
+        if E > 0:
+            variants += [(E - 1, E), (E - 1, E - 1)]
+        runs = []
+        for rdlen, nb in sorted(set(variants)):
+            for ti, trail in enumerate(RR_TRAIL.get(nm, [[A, A]]) if nb > E else [[A, A]]):
+                runs.append((rdlen, nb, 0, trail, "" if ti == 0 else "_t%d" % ti))
+        runs += [(rdlen, nb, 0x3F, [A, A], "") for rdlen, nb in sorted(set([(E, E), (0, E), (E + 1, E), (E + 1, E + 2)]))]
+        for rdlen, nb, flags, trail, tsuf in runs:
+            cells = [(1, t) if isinstance(t, int) else (0, 0) for t in (toks + trail)][:nb]
+            d = ["-DRTYPE=%d" % rtype, "-DSECT=%d" % sect, "-DRDLEN=%d" % rdlen, "-DNB=%d" % nb, "-DFLAGS=%d" % flags,
+                 "-DRD=" + ",".join("{%d,%d}" % c for c in cells)]
+            d += ["-DRCLASS_ANY"] if rclass is None else ["-DRCLASS=%d" % rclass]
+            wit = ["end"]
+            if (rdlen, nb) == (E, E) and flags == 0 and nm in RR_MUST_ACCEPT:
+                wit.append("ok")
+            J.append(dict(name="rr_%s%s_rdlen%d_nb%d%s" % (nm, "_raw" if flags else "", rdlen, nb, tsuf), harness="rr_parse.c",
+                          defines=d, real=RR_LIB, support=SUP, unwind=max(26, nb + 4), leak=True, witnesses=wit,
+                          kf_group="rr_parse",
+                          bound="ares_dns_parse_rr on [01 'a' 00 | type %d | class %s | ttl symbolic | RDLENGTH %d | %d bytes: "
+                                "%s], section %d, parse flags %s: embedded lengths/names concrete, values symbolic" %
+                                (rtype, "symbolic" if rclass is None else rclass, rdlen, nb,
+                                 " ".join(str(t) for t in (toks + trail)[:nb]), sect,
+                                 "all *_RAW set (decoded as RAW_RR)" if flags else "0 (typed decoding)")))
+    return J
+
+
+PTRQ = [0xC0, 12]  # pointer to the question name
+MSG_SHAPES = [
+    ("A", 1, 1, 1, [A] * 4),
+    ("NS_ptr", 2, 1, 2, PTRQ),
+    ("MX", 15, 1, 1, [A, A] + NAME_B),
+    ("SOA", 6, 1, 2, NAME_B + PTRQ + [A] * 20),
+    ("TXT2", 16, 1, 1, [1, A, 2, A, A]),
+    ("OPT1", 41, None, 3, [A, A, 0, 2, A, A]),
+    ("SVCB1", 64, 1, 1, [A, A] + NAME_B + [A, A, 0, 2, A, A]),
+    ("CAA", 257, 1, 1, [A, 2, A, A, A, A, A]),
+    ("UNK99", 99, 1, 3, [A] * 3),
+]
+
+
+def msg_jobs(tier):
+    J = []
+    for nm, rtype, rclass, sect, toks in MSG_SHAPES:
+        E = len(toks)
+        F = 31 + E
+        if tier == "quick":
+            mls = sorted(set([0, 1, 11, 12, 14, 18, 19, 20, 21, 25, 29, 30, 31, F - 1, F]))
+            if nm not in ("A", "MX", "OPT1", "UNK99"):
+                mls = [12, 19, 30, F - 1, F]
+        else:
+            mls = list(range(0, F + 1))
+        runs = [(ml, E, 0) for ml in mls] + [(F, E, 0x3F), (F, E + 1, 0), (F - 1, E, 0x3F)]
+        if E > 0:
+            runs.append((F, E - 1, 0))
+        for ml, rdlen, flags in runs:
+            cells = [(1, t) if isinstance(t, int) else (0, 0) for t in toks]
+            d = ["-DRTYPE=%d" % rtype, "-DSECT=%d" % sect, "-DRDLEN=%d" % rdlen, "-DNB=%d" % E, "-DFLAGS=%d" % flags,
+                 "-DML=%d" % ml, "-DRD=" + ",".join("{%d,%d}" % c for c in cells)]
+            d += ["-DRCLASS_ANY"] if rclass is None else ["-DRCLASS=%d" % rclass]
+            wit = ["end", "err"]
+            if ml == F and rdlen == E and flags == 0:
+                wit = ["end", "ok", "err"]
+            J.append(dict(name="msg_%s%s_rdlen%d_ml%d" % (nm, "_raw" if flags else "", rdlen, ml), harness="msg_parse.c",
+                          defines=d, real=RR_LIB + ["src/lib/record/ares_dns_parse.c"], support=SUP,
+                          unwind=max(26, E + 4), leak=True, witnesses=wit, kf_group="rr_parse",
+                          bound="ares_dns_parse on the first %d of %d bytes of [id,flags symbolic | qd=1, one RR in section %d | "
+                                "01 'a' 00 qtype symbolic IN | C0 0C type %d class %s ttl symbolic RDLENGTH %d | %s], parse "
+                                "flags %s" % (ml, F, sect, rtype, "symbolic" if rclass is None else rclass, rdlen,
+                                              " ".join(str(t) for t in toks), "all *_RAW" if flags else "0")))
+    return J
+
+
 def jobs(tier, seed):
     J = []
     J += buf_jobs(tier)
     J += name_jobs(tier)
     J += legacy_jobs(tier)
+    J += rr_jobs(tier)
+    J += msg_jobs(tier)
     return J
